@@ -143,3 +143,91 @@ fn resign(edited: &[u8], label: &str, old_digest: &[u8], signer: &dyn c2pa::Sign
     out[l.signature.0..l.signature.1].copy_from_slice(&sig);
     Some(out)
 }
+
+/// position after the CBOR data item starting at `p` (definite lengths only)
+pub fn cbor_skip(d: &[u8], p: usize) -> Option<usize> {
+    let b = *d.get(p)?;
+    let (major, info) = (b >> 5, b & 0x1f);
+    let (val, mut q): (u64, usize) = match info {
+        0..=23 => (info as u64, p + 1),
+        24 => (*d.get(p + 1)? as u64, p + 2),
+        25 => (u16::from_be_bytes(d.get(p + 1..p + 3)?.try_into().ok()?) as u64, p + 3),
+        26 => (u32::from_be_bytes(d.get(p + 1..p + 5)?.try_into().ok()?) as u64, p + 5),
+        27 => (u64::from_be_bytes(d.get(p + 1..p + 9)?.try_into().ok()?), p + 9),
+        _ => return None,
+    };
+    match major {
+        0 | 1 | 7 => Some(q),
+        2 | 3 => {
+            let e = q.checked_add(val as usize)?;
+            if e > d.len() {
+                None
+            } else {
+                Some(e)
+            }
+        }
+        4 => {
+            for _ in 0..val {
+                q = cbor_skip(d, q)?;
+            }
+            Some(q)
+        }
+        5 => {
+            for _ in 0..val * 2 {
+                q = cbor_skip(d, q)?;
+            }
+            Some(q)
+        }
+        6 => cbor_skip(d, q),
+        _ => None,
+    }
+}
+
+/// The store with (1) the original claim attached as the payload of the COSE_Sign1 (which the SDK
+/// writes detached, as nil) and (2) `from` replaced by `to` (same length) inside the claim box.
+/// Signature and headers are untouched: a validator that checks the signature over the attached
+/// payload instead of over the claim box would accept the edited claim.
+pub fn attach_payload_and_edit_claim(store: &[u8], from: &[u8], to: &[u8]) -> Option<Vec<u8>> {
+    if from.len() != to.len() {
+        return None;
+    }
+    let l = layout(store)?;
+    let claim = store[l.claim.0..l.claim.1].to_vec();
+    let sig = &store[l.signature.0..l.signature.1];
+    // COSE_Sign1: [tag 18] array(4) protected unprotected payload signature
+    let mut p = 0usize;
+    if *sig.first()? == 0xD2 {
+        p = 1;
+    }
+    if *sig.get(p)? != 0x84 {
+        return None;
+    }
+    p += 1;
+    p = cbor_skip(sig, p)?;
+    p = cbor_skip(sig, p)?;
+    if *sig.get(p)? != 0xF6 {
+        return None;
+    }
+    let mut bstr = if claim.len() < 24 {
+        vec![0x40 | claim.len() as u8]
+    } else if claim.len() < 256 {
+        vec![0x58, claim.len() as u8]
+    } else if claim.len() < 65536 {
+        vec![0x59, (claim.len() >> 8) as u8, claim.len() as u8]
+    } else {
+        return None;
+    };
+    bstr.extend_from_slice(&claim);
+    // the cbor content box that holds the signature: [size][type] precede its content
+    let box_start = l.signature.0 - 8;
+    let box_end = l.signature.1;
+    let at = l.signature.0 + p;
+    let mut out = jumbf::splice(store, at, 1, &bstr, (box_start, box_end))?;
+    let new_size = box_end - box_start + bstr.len() - 1;
+    out[box_start..box_start + 4].copy_from_slice(&(new_size as u32).to_be_bytes());
+    // the claim box comes before the signature box, so its position is unchanged
+    let c = l.claim;
+    let q = c.0 + jumbf::find_sub(&out[c.0..c.1], from)?;
+    out[q..q + to.len()].copy_from_slice(to);
+    Some(out)
+}
